@@ -40,6 +40,7 @@ type c20In struct {
 	IStaked    bool `json:"istaked"` // responder's registry about the initiators
 	RStaked    bool `json:"rstaked"` // initiators' registry about the responder
 	RKsOk      bool `json:"rksok"`   // responder's GetAddress reports the address of its own key
+	HoldMs     int  `json:"hold_ms"` // class 0: keep the gate closed this long after the streams were opened
 }
 
 type c20Stream struct {
@@ -170,7 +171,8 @@ func c20RunCase(t *testing.T, e *vfEnv, class string, in c20In, keyRng *rand.Ran
 		Logger:     slog.New(slog.NewTextHandler(logc, &slog.HandlerOptions{Level: slog.LevelError})),
 	})
 	if err != nil {
-		t.Fatalf("c20: responder: %v", err)
+		t.Errorf("c20: responder: %v", err)
+		return
 	}
 	defer func() {
 		openGate()
@@ -193,7 +195,8 @@ func c20RunCase(t *testing.T, e *vfEnv, class string, in c20In, keyRng *rand.Ran
 	rsp.AddStreamHandlers(desc)
 	rInfo, err := peer.AddrInfo{ID: rsp.host.ID(), Addrs: rsp.host.Addrs()}.MarshalJSON()
 	if err != nil {
-		t.Fatalf("c20: addrs: %v", err)
+		t.Errorf("c20: addrs: %v", err)
+		return
 	}
 
 	// ---- initiators ------------------------------------------------------------------
@@ -211,14 +214,22 @@ func c20RunCase(t *testing.T, e *vfEnv, class string, in c20In, keyRng *rand.Ran
 			Logger:     slog.New(slog.NewTextHandler(io.Discard, &slog.HandlerOptions{Level: slog.LevelError})),
 		})
 		if err != nil {
-			t.Fatalf("c20: initiator: %v", err)
+			t.Errorf("c20: initiator: %v", err)
+			return
 		}
 		inis[j] = svc
 		defer svc.Close()
 	}
 
+	hold := time.Duration(in.HoldMs) * time.Millisecond
 	ctx, cancel := context.WithTimeout(context.Background(), limit)
 	defer cancel()
+	// streams run on a context without deadline (a stream that must wait for a slow responder
+	// must not be timed out by the driver); the cancel is only a safety net far beyond the hold
+	sctx, scancel := context.WithCancel(context.Background())
+	defer scancel()
+	safety := time.AfterFunc(hold+3*limit, scancel)
+	defer safety.Stop()
 
 	type connRes struct {
 		p   p2p.Peer
@@ -245,12 +256,12 @@ func c20RunCase(t *testing.T, e *vfEnv, class string, in c20In, keyRng *rand.Ran
 			obs[j].Streams[k] = res
 			obsMu.Unlock()
 		}()
-		str, err := inis[j].NewStream(ctx, conn[j].p, nil, c20Desc)
+		str, err := inis[j].NewStream(sctx, conn[j].p, nil, c20Desc)
 		if err == nil {
-			err = str.WriteMsg(ctx, &wrapperspb.StringValue{Value: key})
+			err = str.WriteMsg(sctx, &wrapperspb.StringValue{Value: key})
 			if err == nil {
 				reply := new(wrapperspb.StringValue)
-				err = str.ReadMsg(ctx, reply)
+				err = str.ReadMsg(sctx, reply)
 				if err == nil && reply.Value != "ack:"+key {
 					err = errors.New("unexpected reply " + reply.Value)
 				}
@@ -259,7 +270,7 @@ func c20RunCase(t *testing.T, e *vfEnv, class string, in c20In, keyRng *rand.Ran
 		}
 		if err != nil {
 			res.Err = err.Error()
-			if errors.Is(err, context.DeadlineExceeded) {
+			if errors.Is(err, context.DeadlineExceeded) || errors.Is(err, context.Canceled) {
 				res.Res = "pending"
 			}
 			return
@@ -345,7 +356,13 @@ func c20RunCase(t *testing.T, e *vfEnv, class string, in c20In, keyRng *rand.Ran
 			}
 		}
 		// let the streams reach the responder's wrapper while the gate is closed
-		c20Until(300*time.Millisecond*slow, func() bool { return streamsDone.Load() >= totalStreams && totalStreams > 0 })
+		allDone := func() bool { return streamsDone.Load() >= totalStreams && totalStreams > 0 }
+		c20Until(300*time.Millisecond*slow, allDone)
+		if hold > 0 {
+			// long hold: the responder stays between the final read and the registration; the
+			// streams must simply stay pending (leave early only if all of them already ended)
+			c20Until(hold, allDone)
+		}
 		obsMu.Lock()
 		for j := range inis {
 			for _, s := range obs[j].Streams {
@@ -459,6 +476,26 @@ func TestVerifC20(t *testing.T) {
 		f(&in)
 		return in
 	}
+
+	// long hold: the responder is kept between the final read and the registration for seconds
+	// while a stream opened right after Connect returned waits.  These cases have their own
+	// services and run concurrently with everything below, so the run grows by about the hold.
+	holdA, holdB := 4500, 3500
+	if e.Tier == "thorough" {
+		holdA, holdB = 35000, 12000
+	}
+	var lh sync.WaitGroup
+	for i, in := range []c20In{
+		mk(func(in *c20In) { in.HoldMs = holdA }),
+		mk(func(in *c20In) { in.HoldMs = holdB; in.Streams = 2; in.Inits = 2; in.IType = provider }),
+	} {
+		lh.Add(1)
+		go func(i int, in c20In) {
+			defer lh.Done()
+			c20RunCase(t, e, "long-hold", in, rand.New(rand.NewSource(e.Seed*104729+int64(i)+1)))
+		}(i, in)
+	}
+	defer lh.Wait()
 
 	// gated: streams opened while the responder is held between the final read and the registration
 	c20RunCase(t, e, "gated", mk(func(in *c20In) {}), keyRng)
